@@ -1,0 +1,58 @@
+// SPDX-License-Identifier: CC0-1.0
+
+//! Verification hooks
+//!
+//! Only compiled with the `verif-hooks` feature, which is off by default. The hooks let a
+//! deterministic simulator own the scheduling points of the library and count how often rare
+//! branches are reached. They never change results.
+//!
+//! With `verif-shuttle` (which needs the `shuttle` crate, provided only by the verification
+//! harness's generated manifest) the context mutex, the variable-name counter and the
+//! thread-local type tables are shuttle's, and [`yield_point`] is a scheduling point.
+
+use std::sync::atomic::{AtomicU64, Ordering};
+
+/// Reach probes, see [`probe`].
+pub const PROBE_NAMES: [&str; 12] = [
+    "union_bound_path_halving",
+    "union_bound_bind_error_restores_root",
+    "context_eager_completion",
+    "occurs_check_cycle_found",
+    "decode_not_in_canonical_order",
+    "decode_sharing_not_maximal",
+    "bititer_illegal_padding",
+    "read_natural_overflow",
+    "node_drop_freed_child",
+    "final_drop_freed_child",
+    "incomplete_drop_freed_child",
+    "context_bind_error",
+];
+
+#[allow(clippy::declare_interior_mutable_const)]
+const ZERO: AtomicU64 = AtomicU64::new(0);
+static PROBES: [AtomicU64; PROBE_NAMES.len()] = [ZERO; PROBE_NAMES.len()];
+
+/// Counts one visit of the branch with the given index into [`PROBE_NAMES`].
+///
+/// Uses plain `std` atomics on purpose: a probe is not a scheduling point.
+#[inline]
+pub fn probe(id: usize) {
+    PROBES[id].fetch_add(1, Ordering::Relaxed);
+}
+
+/// Current values of all probes, in the order of [`PROBE_NAMES`].
+pub fn probe_counts() -> Vec<u64> {
+    PROBES.iter().map(|p| p.load(Ordering::Relaxed)).collect()
+}
+
+/// A point at which another thread may be scheduled (only with `verif-shuttle`).
+///
+/// Does nothing while the thread is unwinding: destructors then run while the simulated
+/// execution is being torn down, where there is no scheduler left to yield to.
+#[inline]
+pub fn yield_point() {
+    #[cfg(feature = "verif-shuttle")]
+    if !std::thread::panicking() {
+        shuttle::thread::sleep(std::time::Duration::from_secs(0));
+    }
+}
